@@ -25,7 +25,12 @@ pub struct Timeline {
     /// pending strobe-pair run length compression state
     wr_low_pending: bool,
     wr_pairs: u64,
+    /// length of `buf` after the first KEEP_ON_BUDGET operations
+    trunc_at: usize,
 }
+
+/// a call that exhausts its operation budget is recorded with only its first operations
+const KEEP_ON_BUDGET: u64 = 400;
 
 impl Timeline {
     const fn new() -> Self {
@@ -35,9 +40,10 @@ impl Timeline {
             n_fallible: 0,
             fault_at: None,
             fault_effect: false,
-            budget: 3_000_000,
+            budget: 400_000,
             wr_low_pending: false,
             wr_pairs: 0,
+            trunc_at: 0,
         }
     }
 }
@@ -59,6 +65,20 @@ pub fn begin_call(fault_at: Option<u32>, fault_effect: bool, budget: u64) {
         t.budget = budget;
         t.wr_low_pending = false;
         t.wr_pairs = 0;
+        t.trunc_at = 0;
+    })
+}
+
+/// called when the budget was exhausted: keep only the head of the recorded operations
+pub fn truncate_for_budget() {
+    TL.with(|t| {
+        let mut t = t.borrow_mut();
+        t.wr_low_pending = false;
+        t.wr_pairs = 0;
+        if t.trunc_at > 0 {
+            let n = t.trunc_at;
+            t.buf.truncate(n);
+        }
     })
 }
 
@@ -104,6 +124,9 @@ fn push_raw(t: &mut Timeline, s: &str) {
 
 fn count_op(t: &mut Timeline) {
     t.n_ops += 1;
+    if t.n_ops == KEEP_ON_BUDGET + 1 {
+        t.trunc_at = t.buf.len();
+    }
     if t.n_ops > t.budget {
         // unwinds out of the code under test; recorded as res:"budget"
         panic!("{}", BUDGET_MSG);
